@@ -259,13 +259,27 @@ func ReadPatchString(s string) (Diff, error) {
 			i := len(diff) - 1
 			if diff[i].Path.JsonNode().Equals(e.Path.JsonNode()) {
 				diff[i].Remove = append(diff[i].Remove, e.Remove...)
-				// Must be done in reverse order
-				diff[i].Add = append(e.Add, diff[i].Add...)
+				if isAppendPath(e.Path) {
+					// Successive appends stay in order
+					diff[i].Add = append(diff[i].Add, e.Add...)
+				} else {
+					// Must be done in reverse order
+					diff[i].Add = append(e.Add, diff[i].Add...)
+				}
 			} else {
 				diff = append(diff, e)
 			}
 		}
 	}
+}
+
+// isAppendPath tells whether the path ends in the append index ("-").
+func isAppendPath(p Path) bool {
+	if len(p) == 0 {
+		return false
+	}
+	i, ok := p[len(p)-1].(PathIndex)
+	return ok && i == -1
 }
 
 // setPatchDiffElementContext detects before and/or after context and
